@@ -30,7 +30,7 @@ OPS = ["diff", "interp", "min", "max"]
 @st.composite
 def strategy_impl(draw, tier):
     max_n = 6 if tier == "quick" else 9
-    axes = draw(gen.layouts(max_n=max_n, max_cells=300 if tier == "quick" else 700))
+    axes = draw(gen.layouts(max_n=max_n, max_cells=300 if tier == "quick" else 700, big_n=True))
     if all(len(a["positions"]) == 1 for a in axes):
         # construction, not rejection: give one axis a drawn face position
         k = draw(st.integers(0, len(axes) - 1))
